@@ -93,6 +93,80 @@ pub fn run_case(line: &str) -> String {
             };
             format!("b={b} ; o={o}")
         }
+        "dec2" | "decb2" | "dect2" | "deca2" | "decf2" => {
+            // C02: run the entry point on a 2 MiB stack (tokio worker default) and measure allocation requests
+            let h = rest.split_whitespace().next().unwrap_or(".").to_string();
+            let data = unhex(&h);
+            let op = op.to_string();
+            let th = std::thread::Builder::new().stack_size(2 * 1024 * 1024).spawn(move || {
+                crate::alloc::reset();
+                let r = std::panic::catch_unwind(|| match op.as_str() {
+                    "dec2" => match erltf::decode(&data) {
+                        Ok(_) => "ok".to_string(),
+                        Err(e) => format!("err {}", dkind(&e)),
+                    },
+                    "decb2" => match erltf::decode_borrowed(&data) {
+                        Ok(_) => "ok".to_string(),
+                        Err(e) => format!("err {}", dkind(&e.error)),
+                    },
+                    "dect2" => match erltf::decoder::decode_with_trailing(&data) {
+                        Ok((_, r)) => format!("ok rest={}", r.len()),
+                        Err(e) => format!("err {}", dkind(&e)),
+                    },
+                    "deca2" => {
+                        let mut cache = erltf::AtomCache::new();
+                        match erltf::decode_with_atom_cache(&data, &mut cache) {
+                            Ok(_) => "ok".to_string(),
+                            Err(e) => format!("err {}", dkind(&e)),
+                        }
+                    }
+                    _ => match erltf::decoder::decode_fragment_header(&data) {
+                        Ok((hd, r)) => format!("ok {} {} {} rest={}", hd.sequence_id, hd.fragment_id, hd.num_atom_cache_refs, r.len()),
+                        Err(e) => format!("err {}", dkind(&e)),
+                    },
+                });
+                let maxreq = crate::alloc::max_request();
+                let total = crate::alloc::total_requested();
+                (r, maxreq, total, data.len())
+            }).unwrap();
+            match th.join() {
+                Ok((r, maxreq, total, n)) => {
+                    let out = match r { Ok(s) => s, Err(_) => "PANIC".to_string() };
+                    format!("{out} ; maxreq={maxreq} total={total} len={n}")
+                }
+                Err(_) => "PANIC(thread)".to_string(),
+            }
+        }
+        "inflate" => {
+            // the zlib oracle handed to the model: what flate2 makes of these bytes (plain bytes, consumed input)
+            use std::io::Read;
+            let data = unhex(rest.split_whitespace().next().unwrap_or("."));
+            let mut d = flate2::read::ZlibDecoder::new(&data[..]);
+            let mut out = Vec::new();
+            match d.by_ref().take(1 << 22).read_to_end(&mut out) {
+                Ok(_) => format!("ok {} {}", hex(&out), d.total_in()),
+                Err(_) => "err".to_string(),
+            }
+        }
+        "dect" => {
+            let h = rest.split_whitespace().next().unwrap_or(".");
+            match erltf::decoder::decode_with_trailing(&unhex(h)) {
+                Ok((t, r)) => format!("ok {} rest={}", term_str(&t), hex(r)),
+                Err(e) => format!("err {}", dkind(&e)),
+            }
+        }
+        "convh" => {
+            let mut it = rest.split_whitespace();
+            let _ops = it.next().unwrap();
+            let data = unhex(it.next().unwrap());
+            match erltf::decode(&data) {
+                Ok(t) => match erltf::encoder::encode_with_dist_header(&t.clone()) {
+                    Ok(b) => format!("ok {}", hex(&b)),
+                    Err(e) => format!("ok err:{}", ekind(&e)),
+                },
+                Err(e) => format!("err {}", dkind(&e)),
+            }
+        }
         "conv" => {
             let mut it = rest.split_whitespace();
             let ops = it.next().unwrap();
